@@ -31,6 +31,7 @@ type PField struct {
 	Packed bool   `json:"packed"` // repeated scalar encoded packed
 	Msg    string `json:"mt"`     // message type name (kind message)
 	KKind  string `json:"kkind"`  // map key kind
+	JB     B      `json:"jb"`     // JSON name as bytes
 }
 type PSchema struct {
 	Msgs map[string][]PField `json:"msgs"`
@@ -118,6 +119,7 @@ func newPbEnv(s PSchema) (*pbEnv, error) {
 			if fs[i].JSON == "" {
 				fs[i].JSON = defaultJSONName(fs[i].Name)
 			}
+			fs[i].JB = B(fs[i].JSON)
 		}
 		s.Msgs[n] = fs
 	}
@@ -274,7 +276,9 @@ func refDecode(md protoreflect.MessageDescriptor, b []byte) (PVal, error) {
 
 // ---- random schemas and reference messages ----
 
-func randSchema(r *rand.Rand) PSchema {
+func randSchema(r *rand.Rand) PSchema { return randSchemaK(r, pKeyKinds) }
+
+func randSchemaK(r *rand.Rand, keyKinds []string) PSchema {
 	nm := 1 + r.Intn(3)
 	names := []string{"Root"}
 	for i := 1; i < nm; i++ {
@@ -318,7 +322,7 @@ func randSchema(r *rand.Rand) PSchema {
 				}
 			case 2:
 				f.Card = "map"
-				f.KKind = pKeyKinds[r.Intn(len(pKeyKinds))]
+				f.KKind = keyKinds[r.Intn(len(keyKinds))]
 				if f.Kind == "enum" {
 					f.Kind = "int32"
 				}
